@@ -5,7 +5,7 @@
    Each entry names where the access lives in the model and which theorems prove it in range
    (C09), respectively why the construct cannot be raced on (C18). *)
 From Coq Require Import List String Bool.
-From BSpl.gen Require Import Sites Shared.
+From BSpl.gen Require Import Sites.
 Import ListNotations.
 Local Open Scope string_scope.
 
@@ -14,125 +14,67 @@ Definition pair_eqb (a b : string * string) : bool := String.eqb (fst a) (fst b)
 (* (file, access expression, where it is modelled and proved in range) *)
 Definition site_table : list (string * string * string) :=
   [
-    ("bspline/Spline.h", "(_support[*intervalIndex + 1]", "Spline.v (find_interval/spl_eval: sup_sub, sub; spl_mul/spl_add: coefs_at after interval_index; spl_assign_up, lin_comb: fixed-size arrays of length order+1) - in range by Proofs_Eval.seval_total, Proofs_Spline.spl_add_spec/spl_mul_spec/lin_comb_spec, Proofs_Pool.no_ub");
+    ("bspline/Spline.h", "(_support[*v1 + 1]", "Spline.v (find_interval/spl_eval: sup_sub, sub; spl_mul/spl_add: coefs_at after interval_index; spl_assign_up, lin_comb: fixed-size arrays of length order+1) - in range by Proofs_Eval.seval_total, Proofs_Spline.spl_add_spec/spl_mul_spec/lin_comb_spec, Proofs_Pool.no_ub");
     ("bspline/Spline.h", ").back()", "Spline.v (find_interval/spl_eval: sup_sub, sub; spl_mul/spl_add: coefs_at after interval_index; spl_assign_up, lin_comb: fixed-size arrays of length order+1) - in range by Proofs_Eval.seval_total, Proofs_Spline.spl_add_spec/spl_mul_spec/lin_comb_spec, Proofs_Pool.no_ub");
     ("bspline/Spline.h", ").front()", "Spline.v (find_interval/spl_eval: sup_sub, sub; spl_mul/spl_add: coefs_at after interval_index; spl_assign_up, lin_comb: fixed-size arrays of length order+1) - in range by Proofs_Eval.seval_total, Proofs_Spline.spl_add_spec/spl_mul_spec/lin_comb_spec, Proofs_Pool.no_ub");
-    ("bspline/Spline.h", "_coefficients[*intervalIndex]", "Spline.v (find_interval/spl_eval: sup_sub, sub; spl_mul/spl_add: coefs_at after interval_index; spl_assign_up, lin_comb: fixed-size arrays of length order+1) - in range by Proofs_Eval.seval_total, Proofs_Spline.spl_add_spec/spl_mul_spec/lin_comb_spec, Proofs_Pool.no_ub");
-    ("bspline/Spline.h", "_coefficients[*thisRelIndex]", "Spline.v (find_interval/spl_eval: sup_sub, sub; spl_mul/spl_add: coefs_at after interval_index; spl_assign_up, lin_comb: fixed-size arrays of length order+1) - in range by Proofs_Eval.seval_total, Proofs_Spline.spl_add_spec/spl_mul_spec/lin_comb_spec, Proofs_Pool.no_ub");
-    ("bspline/Spline.h", "_coefficients[thisRelIndex]", "Spline.v (find_interval/spl_eval: sup_sub, sub; spl_mul/spl_add: coefs_at after interval_index; spl_assign_up, lin_comb: fixed-size arrays of length order+1) - in range by Proofs_Eval.seval_total, Proofs_Spline.spl_add_spec/spl_mul_spec/lin_comb_spec, Proofs_Pool.no_ub");
+    ("bspline/Spline.h", "_coefficients[*v1]", "Spline.v (find_interval/spl_eval: sup_sub, sub; spl_mul/spl_add: coefs_at after interval_index; spl_assign_up, lin_comb: fixed-size arrays of length order+1) - in range by Proofs_Eval.seval_total, Proofs_Spline.spl_add_spec/spl_mul_spec/lin_comb_spec, Proofs_Pool.no_ub");
+    ("bspline/Spline.h", "_coefficients[v1]", "Spline.v (find_interval/spl_eval: sup_sub, sub; spl_mul/spl_add: coefs_at after interval_index; spl_assign_up, lin_comb: fixed-size arrays of length order+1) - in range by Proofs_Eval.seval_total, Proofs_Spline.spl_add_spec/spl_mul_spec/lin_comb_spec, Proofs_Pool.no_ub");
     ("bspline/Spline.h", "_support.back()", "Spline.v (find_interval/spl_eval: sup_sub, sub; spl_mul/spl_add: coefs_at after interval_index; spl_assign_up, lin_comb: fixed-size arrays of length order+1) - in range by Proofs_Eval.seval_total, Proofs_Spline.spl_add_spec/spl_mul_spec/lin_comb_spec, Proofs_Pool.no_ub");
     ("bspline/Spline.h", "_support.front()", "Spline.v (find_interval/spl_eval: sup_sub, sub; spl_mul/spl_add: coefs_at after interval_index; spl_assign_up, lin_comb: fixed-size arrays of length order+1) - in range by Proofs_Eval.seval_total, Proofs_Spline.spl_add_spec/spl_mul_spec/lin_comb_spec, Proofs_Pool.no_ub");
-    ("bspline/Spline.h", "_support[*intervalIndex]", "Spline.v (find_interval/spl_eval: sup_sub, sub; spl_mul/spl_add: coefs_at after interval_index; spl_assign_up, lin_comb: fixed-size arrays of length order+1) - in range by Proofs_Eval.seval_total, Proofs_Spline.spl_add_spec/spl_mul_spec/lin_comb_spec, Proofs_Pool.no_ub");
-    ("bspline/Spline.h", "a.getCoefficients()[*aRelIndex]", "Spline.v (find_interval/spl_eval: sup_sub, sub; spl_mul/spl_add: coefs_at after interval_index; spl_assign_up, lin_comb: fixed-size arrays of length order+1) - in range by Proofs_Eval.seval_total, Proofs_Spline.spl_add_spec/spl_mul_spec/lin_comb_spec, Proofs_Pool.no_ub");
-    ("bspline/Spline.h", "a.getCoefficients()[aRelIndex]", "Spline.v (find_interval/spl_eval: sup_sub, sub; spl_mul/spl_add: coefs_at after interval_index; spl_assign_up, lin_comb: fixed-size arrays of length order+1) - in range by Proofs_Eval.seval_total, Proofs_Spline.spl_add_spec/spl_mul_spec/lin_comb_spec, Proofs_Pool.no_ub");
-    ("bspline/Spline.h", "a.getCoefficients()[i]", "Spline.v (find_interval/spl_eval: sup_sub, sub; spl_mul/spl_add: coefs_at after interval_index; spl_assign_up, lin_comb: fixed-size arrays of length order+1) - in range by Proofs_Eval.seval_total, Proofs_Spline.spl_add_spec/spl_mul_spec/lin_comb_spec, Proofs_Pool.no_ub");
-    ("bspline/Spline.h", "acoeffs[k]", "Spline.v (find_interval/spl_eval: sup_sub, sub; spl_mul/spl_add: coefs_at after interval_index; spl_assign_up, lin_comb: fixed-size arrays of length order+1) - in range by Proofs_Eval.seval_total, Proofs_Spline.spl_add_spec/spl_mul_spec/lin_comb_spec, Proofs_Pool.no_ub");
-    ("bspline/Spline.h", "coeffsi[j + k]", "Spline.v (find_interval/spl_eval: sup_sub, sub; spl_mul/spl_add: coefs_at after interval_index; spl_assign_up, lin_comb: fixed-size arrays of length order+1) - in range by Proofs_Eval.seval_total, Proofs_Spline.spl_add_spec/spl_mul_spec/lin_comb_spec, Proofs_Pool.no_ub");
-    ("bspline/Spline.h", "coeffsi[j]", "Spline.v (find_interval/spl_eval: sup_sub, sub; spl_mul/spl_add: coefs_at after interval_index; spl_assign_up, lin_comb: fixed-size arrays of length order+1) - in range by Proofs_Eval.seval_total, Proofs_Spline.spl_add_spec/spl_mul_spec/lin_comb_spec, Proofs_Pool.no_ub");
-    ("bspline/Spline.h", "ncoefficients[i]", "Spline.v (find_interval/spl_eval: sup_sub, sub; spl_mul/spl_add: coefs_at after interval_index; spl_assign_up, lin_comb: fixed-size arrays of length order+1) - in range by Proofs_Eval.seval_total, Proofs_Spline.spl_add_spec/spl_mul_spec/lin_comb_spec, Proofs_Pool.no_ub");
-    ("bspline/Spline.h", "ncoeffsi[j]", "Spline.v (find_interval/spl_eval: sup_sub, sub; spl_mul/spl_add: coefs_at after interval_index; spl_assign_up, lin_comb: fixed-size arrays of length order+1) - in range by Proofs_Eval.seval_total, Proofs_Spline.spl_add_spec/spl_mul_spec/lin_comb_spec, Proofs_Pool.no_ub");
-    ("bspline/Spline.h", "newCoefficients[i]", "Spline.v (find_interval/spl_eval: sup_sub, sub; spl_mul/spl_add: coefs_at after interval_index; spl_assign_up, lin_comb: fixed-size arrays of length order+1) - in range by Proofs_Eval.seval_total, Proofs_Spline.spl_add_spec/spl_mul_spec/lin_comb_spec, Proofs_Pool.no_ub");
-    ("bspline/Spline.h", "newCoeffs[k]", "Spline.v (find_interval/spl_eval: sup_sub, sub; spl_mul/spl_add: coefs_at after interval_index; spl_assign_up, lin_comb: fixed-size arrays of length order+1) - in range by Proofs_Eval.seval_total, Proofs_Spline.spl_add_spec/spl_mul_spec/lin_comb_spec, Proofs_Pool.no_ub");
-    ("bspline/Spline.h", "splineCoeffs[k]", "Spline.v (find_interval/spl_eval: sup_sub, sub; spl_mul/spl_add: coefs_at after interval_index; spl_assign_up, lin_comb: fixed-size arrays of length order+1) - in range by Proofs_Eval.seval_total, Proofs_Spline.spl_add_spec/spl_mul_spec/lin_comb_spec, Proofs_Pool.no_ub");
-    ("bspline/Spline.h", "thiscoeffs[j]", "Spline.v (find_interval/spl_eval: sup_sub, sub; spl_mul/spl_add: coefs_at after interval_index; spl_assign_up, lin_comb: fixed-size arrays of length order+1) - in range by Proofs_Eval.seval_total, Proofs_Spline.spl_add_spec/spl_mul_spec/lin_comb_spec, Proofs_Pool.no_ub");
-    ("bspline/integration/BilinearForm.h", "(a.getSupport()[aIndex + 1]", "Forms.v (bilinear: sup_sub, coefs_at; bi_kernel: even-power array of size (sa+sb)/2) - Proofs_Forms.bilinear_spec, bi_kernel_spec, Proofs_Pool.bilinear_safe");
-    ("bspline/integration/BilinearForm.h", "_o1.transform(a.getCoefficients()[aIndex]", "Forms.v (bilinear: sup_sub, coefs_at; bi_kernel: even-power array of size (sa+sb)/2) - Proofs_Forms.bilinear_spec, bi_kernel_spec, Proofs_Pool.bilinear_safe");
-    ("bspline/integration/BilinearForm.h", "_o2.transform(b.getCoefficients()[bIndex]", "Forms.v (bilinear: sup_sub, coefs_at; bi_kernel: even-power array of size (sa+sb)/2) - Proofs_Forms.bilinear_spec, bi_kernel_spec, Proofs_Pool.bilinear_safe");
-    ("bspline/integration/BilinearForm.h", "a.getSupport()[aIndex]", "Forms.v (bilinear: sup_sub, coefs_at; bi_kernel: even-power array of size (sa+sb)/2) - Proofs_Forms.bilinear_spec, bi_kernel_spec, Proofs_Pool.bilinear_safe");
-    ("bspline/integration/BilinearForm.h", "a[i]", "Forms.v (bilinear: sup_sub, coefs_at; bi_kernel: even-power array of size (sa+sb)/2) - Proofs_Forms.bilinear_spec, bi_kernel_spec, Proofs_Pool.bilinear_safe");
-    ("bspline/integration/BilinearForm.h", "b[j]", "Forms.v (bilinear: sup_sub, coefs_at; bi_kernel: even-power array of size (sa+sb)/2) - Proofs_Forms.bilinear_spec, bi_kernel_spec, Proofs_Pool.bilinear_safe");
-    ("bspline/integration/BilinearForm.h", "coefficients[(i + j) / 2]", "Forms.v (bilinear: sup_sub, coefs_at; bi_kernel: even-power array of size (sa+sb)/2) - Proofs_Forms.bilinear_spec, bi_kernel_spec, Proofs_Pool.bilinear_safe");
-    ("bspline/integration/BilinearForm.h", "coefficients[endIndex]", "Forms.v (bilinear: sup_sub, coefs_at; bi_kernel: even-power array of size (sa+sb)/2) - Proofs_Forms.bilinear_spec, bi_kernel_spec, Proofs_Pool.bilinear_safe");
-    ("bspline/integration/BilinearForm.h", "coefficients[i]", "Forms.v (bilinear: sup_sub, coefs_at; bi_kernel: even-power array of size (sa+sb)/2) - Proofs_Forms.bilinear_spec, bi_kernel_spec, Proofs_Pool.bilinear_safe");
-    ("bspline/integration/LinearForm.h", "(a.getSupport()[i + 1]", "Forms.v (linear: sup_sub, coefs_at; lin_kernel) - Proofs_Forms.linear_spec, lin_kernel_spec, Proofs_Pool.linear_safe");
-    ("bspline/integration/LinearForm.h", "a.getSupport()[i]", "Forms.v (linear: sup_sub, coefs_at; lin_kernel) - Proofs_Forms.linear_spec, lin_kernel_spec, Proofs_Pool.linear_safe");
-    ("bspline/integration/LinearForm.h", "a[i]", "Forms.v (linear: sup_sub, coefs_at; lin_kernel) - Proofs_Forms.linear_spec, lin_kernel_spec, Proofs_Pool.linear_safe");
-    ("bspline/integration/LinearForm.h", "evaluateInterval(_o.transform(a.getCoefficients()[i]", "Forms.v (linear: sup_sub, coefs_at; lin_kernel) - Proofs_Forms.linear_spec, lin_kernel_spec, Proofs_Pool.linear_safe");
-    ("bspline/internal/misc.h", "b[i]", "Poly.v (arr_add, change_size, eval_interval on fixed-size arrays, loops bounded by the static sizes) - Proofs_Poly.length_arr_add, length_change_size, eval_interval_spec");
-    ("bspline/internal/misc.h", "coeffs.back()", "Poly.v (arr_add, change_size, eval_interval on fixed-size arrays, loops bounded by the static sizes) - Proofs_Poly.length_arr_add, length_change_size, eval_interval_spec");
-    ("bspline/internal/misc.h", "in[i]", "Poly.v (arr_add, change_size, eval_interval on fixed-size arrays, loops bounded by the static sizes) - Proofs_Poly.length_arr_add, length_change_size, eval_interval_spec");
+    ("bspline/Spline.h", "_support[*v1]", "Spline.v (find_interval/spl_eval: sup_sub, sub; spl_mul/spl_add: coefs_at after interval_index; spl_assign_up, lin_comb: fixed-size arrays of length order+1) - in range by Proofs_Eval.seval_total, Proofs_Spline.spl_add_spec/spl_mul_spec/lin_comb_spec, Proofs_Pool.no_ub");
+    ("bspline/Spline.h", "v1.getCoefficients()[*v2]", "Spline.v (find_interval/spl_eval: sup_sub, sub; spl_mul/spl_add: coefs_at after interval_index; spl_assign_up, lin_comb: fixed-size arrays of length order+1) - in range by Proofs_Eval.seval_total, Proofs_Spline.spl_add_spec/spl_mul_spec/lin_comb_spec, Proofs_Pool.no_ub");
+    ("bspline/Spline.h", "v1.getCoefficients()[v2]", "Spline.v (find_interval/spl_eval: sup_sub, sub; spl_mul/spl_add: coefs_at after interval_index; spl_assign_up, lin_comb: fixed-size arrays of length order+1) - in range by Proofs_Eval.seval_total, Proofs_Spline.spl_add_spec/spl_mul_spec/lin_comb_spec, Proofs_Pool.no_ub");
+    ("bspline/Spline.h", "v1[v2]", "Spline.v (find_interval/spl_eval: sup_sub, sub; spl_mul/spl_add: coefs_at after interval_index; spl_assign_up, lin_comb: fixed-size arrays of length order+1) - in range by Proofs_Eval.seval_total, Proofs_Spline.spl_add_spec/spl_mul_spec/lin_comb_spec, Proofs_Pool.no_ub");
+    ("bspline/Spline.h", "v1[v2 + v3]", "Spline.v (find_interval/spl_eval: sup_sub, sub; spl_mul/spl_add: coefs_at after interval_index; spl_assign_up, lin_comb: fixed-size arrays of length order+1) - in range by Proofs_Eval.seval_total, Proofs_Spline.spl_add_spec/spl_mul_spec/lin_comb_spec, Proofs_Pool.no_ub");
+    ("bspline/integration/BilinearForm.h", "(v1.getSupport()[v2 + 1]", "Forms.v (bilinear: sup_sub, coefs_at; bi_kernel: even-power array of size (sa+sb)/2) - Proofs_Forms.bilinear_spec, bi_kernel_spec, Proofs_Pool.bilinear_safe");
+    ("bspline/integration/BilinearForm.h", "_o1.transform(v1.getCoefficients()[v2]", "Forms.v (bilinear: sup_sub, coefs_at; bi_kernel: even-power array of size (sa+sb)/2) - Proofs_Forms.bilinear_spec, bi_kernel_spec, Proofs_Pool.bilinear_safe");
+    ("bspline/integration/BilinearForm.h", "_o2.transform(v1.getCoefficients()[v2]", "Forms.v (bilinear: sup_sub, coefs_at; bi_kernel: even-power array of size (sa+sb)/2) - Proofs_Forms.bilinear_spec, bi_kernel_spec, Proofs_Pool.bilinear_safe");
+    ("bspline/integration/BilinearForm.h", "v1.getSupport()[v2]", "Forms.v (bilinear: sup_sub, coefs_at; bi_kernel: even-power array of size (sa+sb)/2) - Proofs_Forms.bilinear_spec, bi_kernel_spec, Proofs_Pool.bilinear_safe");
+    ("bspline/integration/BilinearForm.h", "v1[v2]", "Forms.v (bilinear: sup_sub, coefs_at; bi_kernel: even-power array of size (sa+sb)/2) - Proofs_Forms.bilinear_spec, bi_kernel_spec, Proofs_Pool.bilinear_safe");
+    ("bspline/integration/BilinearForm.h", "v1[(v2 + v3) / 2]", "Forms.v (bilinear: sup_sub, coefs_at; bi_kernel: even-power array of size (sa+sb)/2) - Proofs_Forms.bilinear_spec, bi_kernel_spec, Proofs_Pool.bilinear_safe");
+    ("bspline/integration/LinearForm.h", "(v1.getSupport()[v2 + 1]", "Forms.v (linear: sup_sub, coefs_at; lin_kernel) - Proofs_Forms.linear_spec, lin_kernel_spec, Proofs_Pool.linear_safe");
+    ("bspline/integration/LinearForm.h", "v1.getSupport()[v2]", "Forms.v (linear: sup_sub, coefs_at; lin_kernel) - Proofs_Forms.linear_spec, lin_kernel_spec, Proofs_Pool.linear_safe");
+    ("bspline/integration/LinearForm.h", "v1[v2]", "Forms.v (linear: sup_sub, coefs_at; lin_kernel) - Proofs_Forms.linear_spec, lin_kernel_spec, Proofs_Pool.linear_safe");
+    ("bspline/integration/LinearForm.h", "evaluateInterval(_o.transform(v1.getCoefficients()[v2]", "Forms.v (linear: sup_sub, coefs_at; lin_kernel) - Proofs_Forms.linear_spec, lin_kernel_spec, Proofs_Pool.linear_safe");
+    ("bspline/internal/misc.h", "v1[v2]", "Poly.v (arr_add, change_size, eval_interval on fixed-size arrays, loops bounded by the static sizes) - Proofs_Poly.length_arr_add, length_change_size, eval_interval_spec");
+    ("bspline/internal/misc.h", "v1.back()", "Poly.v (arr_add, change_size, eval_interval on fixed-size arrays, loops bounded by the static sizes) - Proofs_Poly.length_arr_add, length_change_size, eval_interval_spec");
     ("bspline/internal/misc.h", "rbegin() + 1", "Poly.v (arr_add, change_size, eval_interval on fixed-size arrays, loops bounded by the static sizes) - Proofs_Poly.length_arr_add, length_change_size, eval_interval_spec");
     ("bspline/internal/misc.h", "rend()", "Poly.v (arr_add, change_size, eval_interval on fixed-size arrays, loops bounded by the static sizes) - Proofs_Poly.length_arr_add, length_change_size, eval_interval_spec");
-    ("bspline/internal/misc.h", "ret[i]", "Poly.v (arr_add, change_size, eval_interval on fixed-size arrays, loops bounded by the static sizes) - Proofs_Poly.length_arr_add, length_change_size, eval_interval_spec");
-    ("bspline/interpolation/interpolation.h", "(x[0]", "Interp.v (interp_system: sup_sub at 0,1,c-1,c,c+1,n-2 guarded by size >= 2 and the loop bounds; y[c], y.front/back guarded by size equality) - Proofs_Interp.interp_system_ok, interp_build_ok, Proofs_Pool.interp_system_okP");
-    ("bspline/interpolation/interpolation.h", "(x[c]", "Interp.v (interp_system: sup_sub at 0,1,c-1,c,c+1,n-2 guarded by size >= 2 and the loop bounds; y[c], y.front/back guarded by size equality) - Proofs_Interp.interp_system_ok, interp_build_ok, Proofs_Pool.interp_system_okP");
-    ("bspline/interpolation/interpolation.h", "coeffs[i]", "Interp.v (interp_system: sup_sub at 0,1,c-1,c,c+1,n-2 guarded by size >= 2 and the loop bounds; y[c], y.front/back guarded by size equality) - Proofs_Interp.interp_system_ok, interp_build_ok, Proofs_Pool.interp_system_okP");
-    ("bspline/interpolation/interpolation.h", "coeffsi[j]", "Interp.v (interp_system: sup_sub at 0,1,c-1,c,c+1,n-2 guarded by size >= 2 and the loop bounds; y[c], y.front/back guarded by size equality) - Proofs_Interp.interp_system_ok, interp_build_ok, Proofs_Pool.interp_system_okP");
-    ("bspline/interpolation/interpolation.h", "ret[i]", "Interp.v (interp_system: sup_sub at 0,1,c-1,c,c+1,n-2 guarded by size >= 2 and the loop bounds; y[c], y.front/back guarded by size equality) - Proofs_Interp.interp_system_ok, interp_build_ok, Proofs_Pool.interp_system_okP");
-    ("bspline/interpolation/interpolation.h", "x.back()", "Interp.v (interp_system: sup_sub at 0,1,c-1,c,c+1,n-2 guarded by size >= 2 and the loop bounds; y[c], y.front/back guarded by size equality) - Proofs_Interp.interp_system_ok, interp_build_ok, Proofs_Pool.interp_system_okP");
-    ("bspline/interpolation/interpolation.h", "x[1]", "Interp.v (interp_system: sup_sub at 0,1,c-1,c,c+1,n-2 guarded by size >= 2 and the loop bounds; y[c], y.front/back guarded by size equality) - Proofs_Interp.interp_system_ok, interp_build_ok, Proofs_Pool.interp_system_okP");
-    ("bspline/interpolation/interpolation.h", "x[c + 1]", "Interp.v (interp_system: sup_sub at 0,1,c-1,c,c+1,n-2 guarded by size >= 2 and the loop bounds; y[c], y.front/back guarded by size equality) - Proofs_Interp.interp_system_ok, interp_build_ok, Proofs_Pool.interp_system_okP");
-    ("bspline/interpolation/interpolation.h", "x[c - 1]", "Interp.v (interp_system: sup_sub at 0,1,c-1,c,c+1,n-2 guarded by size >= 2 and the loop bounds; y[c], y.front/back guarded by size equality) - Proofs_Interp.interp_system_ok, interp_build_ok, Proofs_Pool.interp_system_okP");
-    ("bspline/interpolation/interpolation.h", "x[x.size() - 2]", "Interp.v (interp_system: sup_sub at 0,1,c-1,c,c+1,n-2 guarded by size >= 2 and the loop bounds; y[c], y.front/back guarded by size equality) - Proofs_Interp.interp_system_ok, interp_build_ok, Proofs_Pool.interp_system_okP");
-    ("bspline/interpolation/interpolation.h", "y.back()", "Interp.v (interp_system: sup_sub at 0,1,c-1,c,c+1,n-2 guarded by size >= 2 and the loop bounds; y[c], y.front/back guarded by size equality) - Proofs_Interp.interp_system_ok, interp_build_ok, Proofs_Pool.interp_system_okP");
-    ("bspline/interpolation/interpolation.h", "y.front()", "Interp.v (interp_system: sup_sub at 0,1,c-1,c,c+1,n-2 guarded by size >= 2 and the loop bounds; y[c], y.front/back guarded by size equality) - Proofs_Interp.interp_system_ok, interp_build_ok, Proofs_Pool.interp_system_okP");
-    ("bspline/interpolation/interpolation.h", "y[c]", "Interp.v (interp_system: sup_sub at 0,1,c-1,c,c+1,n-2 guarded by size >= 2 and the loop bounds; y[c], y.front/back guarded by size equality) - Proofs_Interp.interp_system_ok, interp_build_ok, Proofs_Pool.interp_system_okP");
-    ("bspline/operators/CompoundOperators.h", "a[i]", "Ops.v (OSum/ODiff: arr_add on fixed-size arrays) - Proofs_Poly.length_arr_add");
-    ("bspline/operators/CompoundOperators.h", "b[i]", "Ops.v (OSum/ODiff: arr_add on fixed-size arrays) - Proofs_Poly.length_arr_add");
-    ("bspline/operators/Derivative.h", "input[i + n]", "Ops.v (der_transform: sub input (i+n), i < size-n) - Proofs_Poly.der_transform_spec");
-    ("bspline/operators/Derivative.h", "retVal[i]", "Ops.v (der_transform: sub input (i+n), i < size-n) - Proofs_Poly.der_transform_spec");
-    ("bspline/operators/GenericOperators.h", "op.transform(oldCoefficients[i]", "Ops.v (apply: one transform per stored coefficient array, index from the loop bound) - Proofs_Ops.apply_spec, Proofs_Pool.apply_okP");
-    ("bspline/operators/Position.h", "(grid[intervalIndex]", "Ops.v (OPos: grid_sub g k, grid_sub g (k+1) for an interval index k; pmul/expand_power on fixed-size arrays) - Proofs_Ops.transform_pos, Proofs_Binom.length_expand_power");
-    ("bspline/operators/Position.h", "expanded[j]", "Ops.v (OPos: grid_sub g k, grid_sub g (k+1) for an interval index k; pmul/expand_power on fixed-size arrays) - Proofs_Ops.transform_pos, Proofs_Binom.length_expand_power");
-    ("bspline/operators/Position.h", "grid[intervalIndex + 1]", "Ops.v (OPos: grid_sub g k, grid_sub g (k+1) for an interval index k; pmul/expand_power on fixed-size arrays) - Proofs_Ops.transform_pos, Proofs_Binom.length_expand_power");
-    ("bspline/operators/Position.h", "input[i]", "Ops.v (OPos: grid_sub g k, grid_sub g (k+1) for an interval index k; pmul/expand_power on fixed-size arrays) - Proofs_Ops.transform_pos, Proofs_Binom.length_expand_power");
-    ("bspline/operators/Position.h", "retVal[i + j]", "Ops.v (OPos: grid_sub g k, grid_sub g (k+1) for an interval index k; pmul/expand_power on fixed-size arrays) - Proofs_Ops.transform_pos, Proofs_Binom.length_expand_power");
-    ("bspline/operators/Position.h", "retVal[n - i]", "Ops.v (OPos: grid_sub g k, grid_sub g (k+1) for an interval index k; pmul/expand_power on fixed-size arrays) - Proofs_Ops.transform_pos, Proofs_Binom.length_expand_power");
-    ("bspline/operators/SplineOperator.h", "_s.getCoefficients()[*relativeIndex]", "Ops.v (OSpl: coefs_at after interval_index (fix D1); pmul on fixed-size arrays) - Proofs_Ops.expr_sound, Proofs_Pool.transform_total");
-    ("bspline/operators/SplineOperator.h", "coeffs[j]", "Ops.v (OSpl: coefs_at after interval_index (fix D1); pmul on fixed-size arrays) - Proofs_Ops.expr_sound, Proofs_Pool.transform_total");
-    ("bspline/operators/SplineOperator.h", "input[i]", "Ops.v (OSpl: coefs_at after interval_index (fix D1); pmul on fixed-size arrays) - Proofs_Ops.expr_sound, Proofs_Pool.transform_total");
-    ("bspline/operators/SplineOperator.h", "retVal[i + j]", "Ops.v (OSpl: coefs_at after interval_index (fix D1); pmul on fixed-size arrays) - Proofs_Ops.expr_sound, Proofs_Pool.transform_total");
-    ("bspline/support/Grid.h", "((*_data)[i - 1]", "Support.v (steadily: i-1, i < size by the loop; grid_sub: the documented-unchecked accessor, used with proved indices; front/back guarded by empty()) - Proofs_Eval.grid_ctor_iff, Proofs_Support.*");
-    ("bspline/support/Grid.h", "(*_data)[i]", "Support.v (steadily: i-1, i < size by the loop; grid_sub: the documented-unchecked accessor, used with proved indices; front/back guarded by empty()) - Proofs_Eval.grid_ctor_iff, Proofs_Support.*");
+    ("bspline/interpolation/interpolation.h", "(v1[0]", "Interp.v (interp_system: sup_sub at 0,1,c-1,c,c+1,n-2 guarded by size >= 2 and the loop bounds; y[c], y.front/back guarded by size equality) - Proofs_Interp.interp_system_ok, interp_build_ok, Proofs_Pool.interp_system_okP");
+    ("bspline/interpolation/interpolation.h", "(v1[v2]", "Interp.v (interp_system: sup_sub at 0,1,c-1,c,c+1,n-2 guarded by size >= 2 and the loop bounds; y[c], y.front/back guarded by size equality) - Proofs_Interp.interp_system_ok, interp_build_ok, Proofs_Pool.interp_system_okP");
+    ("bspline/interpolation/interpolation.h", "v1[v2]", "Interp.v (interp_system: sup_sub at 0,1,c-1,c,c+1,n-2 guarded by size >= 2 and the loop bounds; y[c], y.front/back guarded by size equality) - Proofs_Interp.interp_system_ok, interp_build_ok, Proofs_Pool.interp_system_okP");
+    ("bspline/interpolation/interpolation.h", "v1.back()", "Interp.v (interp_system: sup_sub at 0,1,c-1,c,c+1,n-2 guarded by size >= 2 and the loop bounds; y[c], y.front/back guarded by size equality) - Proofs_Interp.interp_system_ok, interp_build_ok, Proofs_Pool.interp_system_okP");
+    ("bspline/interpolation/interpolation.h", "v1[1]", "Interp.v (interp_system: sup_sub at 0,1,c-1,c,c+1,n-2 guarded by size >= 2 and the loop bounds; y[c], y.front/back guarded by size equality) - Proofs_Interp.interp_system_ok, interp_build_ok, Proofs_Pool.interp_system_okP");
+    ("bspline/interpolation/interpolation.h", "v1[v2 + 1]", "Interp.v (interp_system: sup_sub at 0,1,c-1,c,c+1,n-2 guarded by size >= 2 and the loop bounds; y[c], y.front/back guarded by size equality) - Proofs_Interp.interp_system_ok, interp_build_ok, Proofs_Pool.interp_system_okP");
+    ("bspline/interpolation/interpolation.h", "v1[v2 - 1]", "Interp.v (interp_system: sup_sub at 0,1,c-1,c,c+1,n-2 guarded by size >= 2 and the loop bounds; y[c], y.front/back guarded by size equality) - Proofs_Interp.interp_system_ok, interp_build_ok, Proofs_Pool.interp_system_okP");
+    ("bspline/interpolation/interpolation.h", "v1[v1.size() - 2]", "Interp.v (interp_system: sup_sub at 0,1,c-1,c,c+1,n-2 guarded by size >= 2 and the loop bounds; y[c], y.front/back guarded by size equality) - Proofs_Interp.interp_system_ok, interp_build_ok, Proofs_Pool.interp_system_okP");
+    ("bspline/interpolation/interpolation.h", "v1.front()", "Interp.v (interp_system: sup_sub at 0,1,c-1,c,c+1,n-2 guarded by size >= 2 and the loop bounds; y[c], y.front/back guarded by size equality) - Proofs_Interp.interp_system_ok, interp_build_ok, Proofs_Pool.interp_system_okP");
+    ("bspline/operators/CompoundOperators.h", "v1[v2]", "Ops.v (OSum/ODiff: arr_add on fixed-size arrays) - Proofs_Poly.length_arr_add");
+    ("bspline/operators/Derivative.h", "v1[v2 + v3]", "Ops.v (der_transform: sub input (i+n), i < size-n) - Proofs_Poly.der_transform_spec");
+    ("bspline/operators/Derivative.h", "v1[v2]", "Ops.v (der_transform: sub input (i+n), i < size-n) - Proofs_Poly.der_transform_spec");
+    ("bspline/operators/GenericOperators.h", "v1.transform(v2[v3]", "Ops.v (apply: one transform per stored coefficient array, index from the loop bound) - Proofs_Ops.apply_spec, Proofs_Pool.apply_okP");
+    ("bspline/operators/Position.h", "(v1[v2]", "Ops.v (OPos: grid_sub g k, grid_sub g (k+1) for an interval index k; pmul/expand_power on fixed-size arrays) - Proofs_Ops.transform_pos, Proofs_Binom.length_expand_power");
+    ("bspline/operators/Position.h", "v1[v2]", "Ops.v (OPos: grid_sub g k, grid_sub g (k+1) for an interval index k; pmul/expand_power on fixed-size arrays) - Proofs_Ops.transform_pos, Proofs_Binom.length_expand_power");
+    ("bspline/operators/Position.h", "v1[v2 + 1]", "Ops.v (OPos: grid_sub g k, grid_sub g (k+1) for an interval index k; pmul/expand_power on fixed-size arrays) - Proofs_Ops.transform_pos, Proofs_Binom.length_expand_power");
+    ("bspline/operators/Position.h", "v1[v2 + v3]", "Ops.v (OPos: grid_sub g k, grid_sub g (k+1) for an interval index k; pmul/expand_power on fixed-size arrays) - Proofs_Ops.transform_pos, Proofs_Binom.length_expand_power");
+    ("bspline/operators/Position.h", "v1[v2 - v3]", "Ops.v (OPos: grid_sub g k, grid_sub g (k+1) for an interval index k; pmul/expand_power on fixed-size arrays) - Proofs_Ops.transform_pos, Proofs_Binom.length_expand_power");
+    ("bspline/operators/SplineOperator.h", "_s.getCoefficients()[*v1]", "Ops.v (OSpl: coefs_at after interval_index (fix D1); pmul on fixed-size arrays) - Proofs_Ops.expr_sound, Proofs_Pool.transform_total");
+    ("bspline/operators/SplineOperator.h", "v1[v2]", "Ops.v (OSpl: coefs_at after interval_index (fix D1); pmul on fixed-size arrays) - Proofs_Ops.expr_sound, Proofs_Pool.transform_total");
+    ("bspline/operators/SplineOperator.h", "v1[v2 + v3]", "Ops.v (OSpl: coefs_at after interval_index (fix D1); pmul on fixed-size arrays) - Proofs_Ops.expr_sound, Proofs_Pool.transform_total");
+    ("bspline/support/Grid.h", "((*_data)[v1 - 1]", "Support.v (steadily: i-1, i < size by the loop; grid_sub: the documented-unchecked accessor, used with proved indices; front/back guarded by empty()) - Proofs_Eval.grid_ctor_iff, Proofs_Support.*");
+    ("bspline/support/Grid.h", "(*_data)[v1]", "Support.v (steadily: i-1, i < size by the loop; grid_sub: the documented-unchecked accessor, used with proved indices; front/back guarded by empty()) - Proofs_Eval.grid_ctor_iff, Proofs_Support.*");
     ("bspline/support/Grid.h", "_data->back()", "Support.v (steadily: i-1, i < size by the loop; grid_sub: the documented-unchecked accessor, used with proved indices; front/back guarded by empty()) - Proofs_Eval.grid_ctor_iff, Proofs_Support.*");
     ("bspline/support/Grid.h", "_data->front()", "Support.v (steadily: i-1, i < size by the loop; grid_sub: the documented-unchecked accessor, used with proved indices; front/back guarded by empty()) - Proofs_Eval.grid_ctor_iff, Proofs_Support.*");
     ("bspline/support/Support.h", "_grid[_endIndex - 1]", "Support.v (sup_sub: the documented-unchecked accessor; sup_front/sup_back guarded by empty(); begin()+start/end within [0,size] by the class invariant) - Proofs_Support.sup_front_spec, sup_back_spec, nnth_sup_points, SInv");
-    ("bspline/support/Support.h", "_grid[_startIndex + index]", "Support.v (sup_sub: the documented-unchecked accessor; sup_front/sup_back guarded by empty(); begin()+start/end within [0,size] by the class invariant) - Proofs_Support.sup_front_spec, sup_back_spec, nnth_sup_points, SInv");
+    ("bspline/support/Support.h", "_grid[_startIndex + v1]", "Support.v (sup_sub: the documented-unchecked accessor; sup_front/sup_back guarded by empty(); begin()+start/end within [0,size] by the class invariant) - Proofs_Support.sup_front_spec, sup_back_spec, nnth_sup_points, SInv");
     ("bspline/support/Support.h", "_grid[_startIndex]", "Support.v (sup_sub: the documented-unchecked accessor; sup_front/sup_back guarded by empty(); begin()+start/end within [0,size] by the class invariant) - Proofs_Support.sup_front_spec, sup_back_spec, nnth_sup_points, SInv");
     ("bspline/support/Support.h", "begin() + _endIndex", "Support.v (sup_sub: the documented-unchecked accessor; sup_front/sup_back guarded by empty(); begin()+start/end within [0,size] by the class invariant) - Proofs_Support.sup_front_spec, sup_back_spec, nnth_sup_points, SInv");
     ("bspline/support/Support.h", "begin() + _startIndex", "Support.v (sup_sub: the documented-unchecked accessor; sup_front/sup_back guarded by empty(); begin()+start/end within [0,size] by the class invariant) - Proofs_Support.sup_front_spec, sup_back_spec, nnth_sup_points, SInv")
   ].
 
-Inductive share_class := Immutable | ConstInitOnce | AtomicRC | PureFunction.
-
-(* Immutable: constexpr constant.  ConstInitOnce: function-local static const, initialised once under the
-   C++11 thread-safe-statics rule and never written again.  AtomicRC: shared_ptr to a const vector - the only
-   shared mutable word is the atomic reference count.  PureFunction: a static member FUNCTION (no state). *)
-Definition shared_table : list (string * string * share_class) :=
-  [
-    ("bspline/BSplineGenerator.h", "static constexpr size_t k = order + 1;", Immutable);
-    ("bspline/Spline.h", "static const T ZERO = static_cast<T>(0);", ConstInitOnce);
-    ("bspline/Spline.h", "static constexpr size_t ARRAY_SIZE = order + 1;", Immutable);
-    ("bspline/Spline.h", "static constexpr size_t NEW_ARRAY_SIZE = NEW_ORDER + 1;", Immutable);
-    ("bspline/Spline.h", "static constexpr size_t NEW_ORDER = order + ordera;", Immutable);
-    ("bspline/Spline.h", "static constexpr size_t NEW_ORDER = std::max(order, ordera);", Immutable);
-    ("bspline/Spline.h", "static constexpr size_t spline_order = order;", Immutable);
-    ("bspline/integration/BilinearForm.h", "static T evaluateInterval(const std::array<T, sizea> &a,", PureFunction);
-    ("bspline/integration/LinearForm.h", "static T evaluateInterval(const std::array<T, size> &a, const T &dxhalf) {", PureFunction);
-    ("bspline/operators/CompoundOperators.h", "static constexpr size_t outputOrder(size_t inputOrder) {", Immutable);
-    ("bspline/operators/CompoundOperators.h", "static std::array<T, std::max(sizea, sizeb)> &add(std::array<T, sizea> &a,", PureFunction);
-    ("bspline/operators/Derivative.h", "static constexpr size_t outputOrder(size_t inputOrder) {", Immutable);
-    ("bspline/operators/GenericOperators.h", "static constexpr size_t outputOrder(size_t inputOrder) { return inputOrder; }", Immutable);
-    ("bspline/operators/Position.h", "static constexpr size_t outputOrder(size_t inputOrder) {", Immutable);
-    ("bspline/operators/Position.h", "static std::array<T, n + 1> expandPower(const T &xm) {", PureFunction);
-    ("bspline/operators/ScalarOperators.h", "static constexpr size_t outputOrder(size_t inputOrder) {", Immutable);
-    ("bspline/operators/SplineOperator.h", "static constexpr size_t outputOrder(size_t inputOrder) {", Immutable);
-    ("bspline/support/Grid.h", "explicit Grid(std::shared_ptr<const std::vector<T>> data)", AtomicRC);
-    ("bspline/support/Grid.h", "std::shared_ptr<const std::vector<T>> _data;", AtomicRC);
-    ("bspline/support/Grid.h", "std::shared_ptr<const std::vector<T>> getData() const {", AtomicRC);
-    ("bspline/support/Support.h", "static Support<T> createEmpty(const Grid<T> &grid) {", PureFunction);
-    ("bspline/support/Support.h", "static Support<T> createWholeGrid(const Grid<T> &grid) {", PureFunction)
-  ].
-
 Definition site_covered (s : string * string) : bool := existsb (fun e => pair_eqb (fst e) s) site_table.
-Definition shared_covered (s : string * string) : bool := existsb (fun e => pair_eqb (fst e) s) shared_table.
 
 Theorem sites_covered : forallb site_covered unchecked_sites = true.
 Proof. vm_compute. reflexivity. Qed.
 
-Theorem shared_inventory_safe : forallb shared_covered shared_sites = true.
-Proof. vm_compute. reflexivity. Qed.
-
-(* which generated entries are not covered (evaluated by the check to name them in a violation report) *)
 Definition uncovered_sites := filter (fun s => negb (site_covered s)) unchecked_sites.
-Definition uncovered_shared := filter (fun s => negb (shared_covered s)) shared_sites.
